@@ -81,10 +81,11 @@ def run(ctx):
             ctx.violation({"kind": "proof-obligation-broken", "obligation": o}, found_input=False)
             reported += 1
     ctx.write_evidence("other", {
-        "explanation": "Model-level theorem (every schedule gives each object its sequential result, for objects that write only their own "
-                       "state) + frame assumption checked on the emitted code (no write to package-level state outside init, plain and -zip) + "
-                       "race-detector run (16 goroutines x own lexer/parser objects, different input orders) compared with the sequential "
-                       "run. Partial: the Go memory model and the coverage of the race detector are outside what a theorem can carry.",
+        "explanation": "Model-level theorems (every schedule gives each object its sequential result, for objects that write only their own "
+                       "state; instantiated to the parser-object model LR/ObjParse.v: n goroutines with own parser objects in any state obtain the "
+                       "results of fresh parsers on their own inputs under every schedule of Parse calls) + frame assumption checked on the emitted code (no write to package-level state outside init, plain and -zip) + "
+                       "race-detector run (16 goroutines x own lexer/parser objects, different input orders, released together in a cold process "
+                       "before the sequential reference run) compared with the sequential run. Partial: the Go memory model and the coverage of the race detector are outside what a theorem can carry.",
         "evaluations": total, "distinct_nontrivial": len(distinct),
         "rule": "grammars with lexical part and pure actions (no helper package, so the test harness itself shares nothing), plain and -zip; "
                 "sources as in C02; 16 goroutines each parsing all sources in its own order; non-trivial = source longer than 4 bytes",
